@@ -66,7 +66,7 @@ fn run_render<F: Function + MathFunction + RenderHints>(
     Ok(render(bound, &cfg, &ec))
 }
 
-fn random_mat3(rng: &mut Rng) -> Matrix3<f32> {
+pub fn random_mat3(rng: &mut Rng) -> Matrix3<f32> {
     if rng.chance(0.2) {
         return Matrix3::identity();
     }
